@@ -46,7 +46,46 @@ def load():
     if not os.path.realpath(pkg.__file__).startswith(os.path.realpath(REPO)):
         raise RuntimeError('py_stringsimjoin imported from %s, not from %s' % (pkg.__file__, REPO))
     pkg.__use_cython__ = False
+    _snapshot_state()
     return _loaded
+
+
+_STATE = []
+
+
+def _snapshot_state():
+    """Module-level mutable containers of the package (dict / list / set objects bound at module
+    level).  They are restored before every explored path so that paths stay independent even if the
+    code under test keeps state between calls (such state is what C12 is about: within a path it is
+    left alone)."""
+    import copy
+    seen = set()
+    for full, module in _loaded.items():
+        for name, obj in list(module.__dict__.items()):
+            if name.startswith('__') or id(obj) in seen:
+                continue
+            if type(obj) in (dict, list, set):
+                try:
+                    _STATE.append((obj, copy.deepcopy(obj)))
+                    seen.add(id(obj))
+                except Exception:
+                    pass
+
+
+def reset_state():
+    for obj, snap in _STATE:
+        try:
+            if isinstance(obj, dict):
+                obj.clear()
+                obj.update(snap)
+            elif isinstance(obj, list):
+                del obj[:]
+                obj.extend(snap)
+            else:
+                obj.clear()
+                obj.update(snap)
+        except Exception:
+            pass
 
 
 def mod(short):
